@@ -17,7 +17,7 @@ META = {
 
 THEOREMS = ["C20.b64_roundtrip", "C20.b32_roundtrip", "C20.b32hex_roundtrip",
             "C20.b64_fragmentation_independent", "C20.b32_fragmentation_independent", "C20.b32hex_fragmentation_independent",
-            "C20.decoder_writes_in_bounds", "C20.utf8_to_utf16_fragmentation_independent", "C20.utf8_to_utf16_never_reads_outside", "C20.utf16_to_utf8_fragmentation_independent", "C20.utf16_to_utf8_source_loop_agrees", "C20.utf16_to_utf8_never_reads_outside", "C20.utf16_to_utf8_source_loop_fragmentation_independent",
+            "C20.decoder_writes_in_bounds", "C20.utf8_to_utf16_fragmentation_independent", "C20.utf8_to_utf16_never_reads_outside", "C20.utf8_to_utf16_source_loop_agrees", "C20.utf8_to_utf16_source_loop_never_reads_outside", "C20.utf8_to_utf16_source_loop_fragmentation_independent", "C20.utf16_to_utf8_fragmentation_independent", "C20.utf16_to_utf8_source_loop_agrees", "C20.utf16_to_utf8_never_reads_outside", "C20.utf16_to_utf8_source_loop_fragmentation_independent",
             "C20.utf8_utf16_roundtrip_single_region", "C20.utf8_utf16_roundtrip_any_fragmentation", "C20.utf8_to_utf16_output_wellformed", "C20.utf8_to_utf16_output_accepted", "C20.utf16_to_utf8_output_wellformed", "C20.utf16_to_utf8_output_accepted", "C20.surrogates_rejected", "C20.defects_fixed",
             "Tie.b64_tables", "Tie.b32_tables", "Tie.b32hex_tables"]
 
